@@ -201,6 +201,7 @@ func GenProject(t *rapid.T, o Opts) Project {
 	g.names.Words = o.WordNames
 	g.names.Exotic, g.names.Long = o.ExoticNames, o.LongLines
 	g.names.Special = o.KeywordNames
+	g.names.Called = o.Bodies
 	pkgPool := pkgPool
 	if o.ExoticNames {
 		pkgPool = append(append([]string(nil), pkgPool...), exoticPkgs...)
